@@ -40,6 +40,9 @@ pub assume_specification [<[u8]>::eq_ignore_ascii_case] (a: &[u8], b: &[u8]) -> 
     ensures r == (a@.len() == b@.len() && forall|i: int| 0 <= i < a@.len() ==> lower(a@[i]) == lower(b@[i]));
 pub assume_specification [u8::to_ascii_uppercase] (b: &u8) -> (r: u8) ensures r == upper(*b);
 
+#[verifier::external_body]
+pub fn vp_is_star(l: &[u8]) -> (r: bool) ensures r == (l@ =~= seq![42u8]) { l == b"*" }
+
 // interface of label.rs::LabelCmp with its contract: cmp_u8 orders octets by key(folds(), .)
 pub trait LabelCmp {
     spec fn folds() -> bool;
@@ -297,6 +300,19 @@ impl Name {
 //%mutant no_length_tiebreak "match l.len().cmp(&r.len()) { Ordering::Equal => {} ord => return ord, }" => ""
 //%mutant left_to_right "self.iter().rev().zip(other.iter().rev())" => "self.iter().zip(other.iter())"
 //%mutant label_count_swapped "self.label_ends.len().cmp(&other.label_ends.len())" => "other.label_ends.len().cmp(&self.label_ends.len())"
+//%end
+
+//%fn crates/proto/src/rr/domain/name.rs :: impl Name :: num_labels
+//%contract
+        requires self.wf()
+        // RFC 4034 3.1.3: the Labels count excludes a leading "*" label (and the root)
+        ensures r as int == (if self.nlabels() > 0 && self.label(0) =~= seq![42u8] { self.nlabels() - 1 } else { self.nlabels() }),
+//%entry
+        proof { lemma_label_slice_view(self, 0); }
+//%closure "|l|"
+|l: &[u8]| -> (o: u8) requires num >= 1 ensures o == (if l@ =~= seq![42u8] { (num - 1) as u8 } else { num })
+//%sub1 "l == b\"*\"" => "vp_is_star(l)" # R-shim: comparison of a slice with a byte-string literal
+//%mutant star_not_discounted "num - 1" => "num"
 //%end
 
 //%fn crates/proto/src/rr/domain/name.rs :: impl Name :: cmp_with_f
